@@ -339,14 +339,17 @@ func (vc *VC) boundsObl(in ssa.Instruction, i, n string) {
 }
 
 func (vc *VC) nilObl(in ssa.Instruction, a Addr, p token.Pos) {
-	if !vc.wantNoPanic() {
-		return
-	}
 	if strings.HasPrefix(a.Obj, "obj_") || strings.HasPrefix(a.Obj, vc.prefix+"obj_") {
 		return
 	}
-	vc.addObl(&Obligation{Name: fmt.Sprintf("%s/nopanic@%s[nil]", vc.key, vc.pos(p)), Kind: "nopanic",
-		Goal: implies(vc.curR, not(eq(a.Obj, "0"))), Pos: vc.pos(p), Src: "non-nil dereference"})
+	if vc.wantNoPanic() {
+		vc.addObl(&Obligation{Name: fmt.Sprintf("%s/nopanic@%s[nil]", vc.key, vc.pos(p)), Kind: "nopanic",
+			Goal: implies(vc.curR, not(eq(a.Obj, "0"))), Pos: vc.pos(p), Src: "non-nil dereference"})
+	}
+	// A load or store through a nil pointer panics: what follows on this path is not an execution that
+	// returns (partial correctness, like an explicit panic). Stated after the obligation, so that a
+	// no-panic claim still has to prove it.
+	vc.assume(implies(vc.curR, not(eq(a.Obj, "0"))))
 }
 
 func (vc *VC) panicSite(p token.Pos, what string) {
@@ -554,6 +557,14 @@ func (vc *VC) binop(op token.Token, t types.Type, xs, ys []string, yv ssa.Value)
 		var e string
 		if _, isIface := t.Underlying().(*types.Interface); isIface {
 			e = vc.ifaceEq(x, y)
+		} else if _, isPtr := t.Underlying().(*types.Pointer); isPtr && len(xs) == 1 && len(ys) == 1 && (xs[0] == "nilptr" || ys[0] == "nilptr") {
+			// p == nil: the pointer refers to no object (contract clauses test nil the same way; a pointer
+			// VALUE with object 0 and a non-zero slot does not exist in Go)
+			p := xs[0]
+			if p == "nilptr" {
+				p = ys[0]
+			}
+			e = eq("(p_obj "+p+")", "0")
 		} else {
 			var cs []string
 			for i := range xs {
